@@ -809,7 +809,12 @@ class Dict(dict, base.Symbolic, pg_typing.CustomTyping):
     super().clear()
 
     if value_spec:
-      self.use_value_spec(value_spec, self._allow_partial)
+      # NOTE: `clear` is not an accessor write (same as `pop`), thus re-applying
+      # the value spec (which fills the default values back) must not be
+      # refused when `accessor_writable` is False: that would leave this Dict
+      # empty and without its value spec.
+      with flags.allow_writable_accessors(True):
+        self.use_value_spec(value_spec, self._allow_partial)
 
   def setdefault(self, key: Union[str, int], default: Any = None) -> Any:
     """Sets default as the value to key if not present."""
